@@ -30,7 +30,7 @@ ASSUMPTIONS = [
     "steps must raise LenaValueError at construction; integral floats such as 2.0 are outside the alphabet",
     "fill_into is checked for non-negative arguments only (negative ones are documented as unsupported)",
 ]
-NONTRIVIAL_FLOOR = {"quick": 5000, "thorough": 100000}
+NONTRIVIAL_FLOOR = {"quick": 5000, "thorough": 50000}
 
 
 def _dom(tier):
